@@ -56,10 +56,104 @@ def formula(ck, repo, nf, rule, q, spec, key="formula", self_class=None):
         got = nf.return_poly(q, env)
     want = nf.poly(parse_expr(spec), Scope(None, fn._module, env, qual, self_class=self_class), None)
     ok = got == want
+    if not ok and "φ(" in got.canon() and not self_class:
+        return _formula_per_path(ck, repo, nf, rule, fn, qual, spec, key)
     if not ok and ("φ(" in got.canon() or not same_ingredients(got, want, ("minimum", "maximum", "clip", "where", "abs"))):
         raise AnalysisError(f"{qual}: `{got.canon()[:120]}` is not written with the documented building blocks / depends on a branch (unrecognised form)")
     ck.ob(rule, qual, key, ok, f"{got.canon()[:170]}", "" if ok else f"differs from the documented formula `{want.canon()[:170]}`", loc(fn._module, fn))
     return got
+
+
+def _param_default(fn, name):
+    a = fn.args
+    pos = a.posonlyargs + a.args
+    for p_, d_ in zip(pos[len(pos) - len(a.defaults):], a.defaults):
+        if p_.arg == name:
+            return d_
+    for p_, d_ in zip(a.kwonlyargs, a.kw_defaults):
+        if p_.arg == name and d_ is not None:
+            return d_
+    return None
+
+
+def _formula_per_path(ck, repo, nf, rule, fn, qual, spec, key):
+    """The value depends on branches over parameters: compare path by path.  A parameter the documented formula does not mention is
+    taken at its default (the formula documents the default configuration); for a parameter of the formula, the falsy arm of a
+    truthiness test is the case `parameter == 0` (None is outside the documented domain)."""
+    from ..sympath import enumerate_paths, PathEval
+    from ..sem import ingredient_tokens
+    mi = fn._module
+    from ..sem import with_callees_inlined
+    fn2 = with_callees_inlined(repo, fn, qual)
+    if fn2 is not None:
+        ck._keep = getattr(ck, "_keep", []) + [fn2]
+        fn = fn2
+    cfg = nf.cfg_of(fn)
+    params = param_names(fn)
+    spec_names = {n.id for n in ast.walk(parse_expr(spec)) if isinstance(n, ast.Name)}
+    n_cmp = 0
+    seen = set()
+    for path in enumerate_paths(cfg, cfg.entry, {cfg.exit}):
+        zero, feasible = set(), True
+        facts = []
+        for nid, lab in path:
+            n = cfg.nodes[nid]
+            if n.kind != "test" or not hasattr(n.ast, "test") or lab not in (True, False):
+                continue
+            t = n.ast.test
+            neg = False
+            while isinstance(t, ast.UnaryOp) and isinstance(t.op, ast.Not):
+                t, neg = t.operand, not neg
+            kind = None
+            if isinstance(t, ast.Name):
+                pname, kind = t.id, "truth"
+            elif isinstance(t, ast.Compare) and len(t.ops) == 1 and isinstance(t.left, ast.Name) and isinstance(t.comparators[0], ast.Constant) and t.comparators[0].value is None and isinstance(t.ops[0], (ast.Is, ast.IsNot)):
+                pname, kind = t.left.id, "none"
+                neg = neg != isinstance(t.ops[0], ast.IsNot)
+            if kind is None or pname not in params or len(cfg.defs_of(nid, pname)) != 1 or cfg.defs_of(nid, pname)[0].kind != "param":
+                raise AnalysisError(f"{qual}: the value depends on the branch `{short(n.ast.test, 50)}`, which is not a test of a parameter (unrecognised form)")
+            holds = (lab != neg)       # truth value of `p` / `p is None` on this path
+            if pname not in spec_names:
+                d_ = _param_default(fn, pname)
+                if not isinstance(d_, ast.Constant):
+                    raise AnalysisError(f"{qual}: the value depends on `{pname}`, which the documented formula does not mention and which has no constant default")
+                dv = (bool(d_.value) if kind == "truth" else d_.value is None)
+                if dv != holds:
+                    feasible = False
+            else:
+                if kind == "none":
+                    if holds:
+                        feasible = False     # None is outside the documented domain of a formula parameter
+                elif not holds:
+                    zero.add(pname)
+                facts.append(f"{pname} {'is None' if kind == 'none' and holds else 'is not None' if kind == 'none' else '!= 0' if holds else '== 0'}")
+        if not feasible:
+            continue
+        env = {p_: (Poly.const(0) if p_ in zero else Poly.atom(p_, {p_}, {p_})) for p_ in params}
+        pe = PathEval(nf, cfg, mi, qual, env)
+        ret = None
+        for nid, lab in path:
+            n = cfg.nodes[nid]
+            if n.kind == "stmt" and isinstance(n.ast, ast.Return) and n.ast.value is not None:
+                ret = pe.ev(n.ast.value)
+            pe.step(nid, lab)
+        if ret is None:
+            raise AnalysisError(f"{qual}: a path returns no value")
+        want = nf.poly(parse_expr(spec), Scope(None, mi, env, qual), None)
+        sig = (ret.canon(), tuple(sorted(zero)))
+        if sig in seen:
+            continue
+        seen.add(sig)
+        ok = ret == want
+        want_sym = nf.poly(parse_expr(spec), Scope(None, mi, {p_: Poly.atom(p_, {p_}, {p_}) for p_ in params}, qual), None)
+        if not ok and ("φ(" in ret.canon() or not same_ingredients(ret, want_sym, ("minimum", "maximum", "clip", "where", "abs"))):
+            raise AnalysisError(f"{qual}: `{ret.canon()[:120]}` ({', '.join(facts) or 'default configuration'}) is not written with the documented building blocks (unrecognised form)")
+        n_cmp += 1
+        ck.ob(rule, qual, key if n_cmp == 1 else f"{key}:{n_cmp}", ok, f"{ret.canon()[:150]}  [{', '.join(facts) or 'default configuration'}]",
+              "" if ok else f"on the path where {', '.join(facts) or 'the defaults apply'} the value differs from the documented formula `{want.canon()[:150]}`", loc(mi, fn))
+    if not n_cmp:
+        raise AnalysisError(f"{qual}: no path of the function is in the documented domain (unrecognised form)")
+    return None
 
 
 def _min_leaves(nf, atom):
@@ -465,6 +559,7 @@ def run(ck, repo: Repo, tier: str):
 
 _D, _T, _H, _C, _P = "rl_blox/algorithm/ddpg.py", "rl_blox/algorithm/td3.py", "rl_blox/blox/function_approximator/policy_head.py", "rl_blox/blox/cross_entropy_method.py", "rl_blox/algorithm/pets.py"
 MUTANTS = [
+    {"id": "c10-noise-clip-truthiness", "file": "rl_blox/algorithm/td3.py", "rule": "R2", "find": "    clipped_eps = jnp.clip(eps, -scaled_noise_clip, scaled_noise_clip)\n", "replace": "    clipped_eps = eps\n    if noise_clip:\n        clipped_eps = jnp.clip(eps, -scaled_noise_clip, scaled_noise_clip)\n"},
     {"id": "c10-cem-one-sided", "file": _C, "rule": "R4", "find": "        jnp.minimum((0.5 * lb_dist) ** 2, (0.5 * ub_dist) ** 2),", "replace": "        jnp.minimum((0.5 * lb_dist) ** 2, (0.5 * lb_dist) ** 2),"},
     {"id": "c10-no-clip", "file": _D, "rule": "R", "find": "    return jnp.clip(exploring_action, action_low, action_high)", "replace": "    return exploring_action"},
     {"id": "c10-clip-swapped", "file": _D, "rule": "R", "find": "    return jnp.clip(exploring_action, action_low, action_high)", "replace": "    return jnp.clip(exploring_action, action_high, action_low)"},
@@ -487,6 +582,7 @@ MUTANTS = [
     {"id": "c10-pets-last-plan-step", "file": _P, "rule": "R5", "find": "    return plan[0]", "replace": "    return plan[-1] + plan[0]"},
 ]
 BENIGN = [
+    {"id": "c10-b-noise-clip-zero-branch", "file": "rl_blox/algorithm/td3.py", "find": "    clipped_eps = jnp.clip(eps, -scaled_noise_clip, scaled_noise_clip)\n", "replace": "    clipped_eps = 0.0 * eps\n    if noise_clip:\n        clipped_eps = jnp.clip(eps, -scaled_noise_clip, scaled_noise_clip)\n"},
     {"id": "c10-b-cem-clip-samples", "file": _C, "find": "    return samples\n\n\ndef cem_update(", "replace": "    return jnp.clip(samples, lb, ub)\n\n\ndef cem_update("},
     {"id": "c10-b-cem-quarter", "file": _C, "find": "        jnp.minimum((0.5 * lb_dist) ** 2, (0.5 * ub_dist) ** 2),", "replace": "        jnp.minimum(0.25 * lb_dist**2, 0.25 * jnp.square(ub_dist)),"},
     {"id": "c10-b-cem-update-rewritten", "file": _C, "find": "    mean = alpha * mean + (1.0 - alpha) * jnp.mean(elites, axis=0)", "replace": "    elite_mean = jnp.mean(elites, axis=0)\n    mean = elite_mean + alpha * (mean - elite_mean)"},
